@@ -285,6 +285,9 @@ class Date:
         if d < 1:
             raise FinError("Date: Leap year. Day not valid.")
 
+        if m < 1 or m > 12:
+            raise FinError("Date: Month must be in range 1-12.")
+
         leap_year = is_leap_year(y)
 
         if leap_year:
